@@ -1492,6 +1492,54 @@ def instr_sweep(rng: random.Random, thorough: bool = False):
                 add([(mt, mv)], [('MAP', ('SEQ', [('CDR',), ('SOME',)]))])
             add([], [('EMPTY_SET', kt), ('PUSH', T_BOOL, ('bool', True)), ('PUSH', kt, gen_data(rng, kt)), ('UPDATE',)])
             add([], [('EMPTY_MAP', kt, vt), ('PUSH', ('option', vt), ('some', gen_data(rng, vt))), ('PUSH', kt, gen_data(rng, kt)), ('UPDATE',)])
+    # COMPARE: the deciding component comes AFTER components that are equal and None / Some None / Left on both sides
+    O_INT, OO_UNIT = ('option', T_INT), ('option', ('option', T_UNIT))
+    cmp_shapes = [
+        (('pair', O_INT, T_INT), lambda h, x: ('pair', h, ('int', x)), [('none',), ('some', ('int', 3))]),
+        (('pair', T_NAT, ('pair', O_INT, T_STRING)), lambda h, x: ('pair', ('int', 1), ('pair', h, ('str', 'ab'[:x]))), [('none',), ('some', ('int', 0))]),
+        (('pair', OO_UNIT, T_NAT), lambda h, x: ('pair', h, ('int', x)), [('none',), ('some', ('none',)), ('some', ('some', ('unit',)))]),
+        (('pair', ('pair', O_INT, O_INT), T_INT), lambda h, x: ('pair', ('pair', h, h), ('int', x)), [('none',), ('some', ('int', -1))]),
+        (('pair', ('or', O_INT, T_UNIT), T_INT), lambda h, x: ('pair', ('left', h), ('int', x)), [('none',), ('some', ('int', 5))]),
+        (('option', ('pair', O_INT, T_INT)), lambda h, x: ('some', ('pair', h, ('int', x))), [('none',), ('some', ('int', 2))]),
+    ]
+    for t, mk, heads in cmp_shapes:
+        for h in heads:
+            for (x, y) in ((0, 1), (1, 0), (1, 1), (0, 2)):
+                a, b = mk(h, x), mk(h, y)
+                add([(t, a), (t, b)], [('COMPARE',)])
+                out[-1]['must'] = True
+                add([(t, a), (t, b)], [('COMPARE',), (rng.choice(['EQ', 'GT', 'LT', 'GE', 'LE', 'NEQ']),)])
+                add([(t, a), (t, b)], [('COMPARE',), ('GT',), ('IF', ('SEQ', [('PUSH', T_STRING, ('str', 'gt'))]), ('SEQ', [('PUSH', T_STRING, ('str', 'le'))]))])
+                if x != y:
+                    lo, hi = (a, b) if x < y else (b, a)
+                    add([(t, hi), (('set', t), ('set', [lo]))], [('MEM',)])
+                    add([(t, hi), (T_BOOL, ('bool', True)), (('set', t), ('set', [lo]))], [('UPDATE',)])
+                    add([(t, lo), (T_BOOL, ('bool', True)), (('set', t), ('set', [hi]))], [('UPDATE',)])
+                    add([(t, lo), (('map', t, T_NAT), ('map', [(lo, ('int', 1)), (hi, ('int', 2))]))], [('GET',)])
+                    add([(t, hi), (('option', T_NAT), ('some', ('int', 7))), (('map', t, T_NAT), ('map', [(lo, ('int', 1))]))], [('UPDATE',)])
+    # branching on values whose Python objects are falsy ("" / 0x / {} / False / empty set, map): each branch leaves a
+    # differently typed trace of the payload it received, so that taking the wrong branch shows in values AND in types
+    falsy = [(T_STRING, ('str', ''), [('SIZE',)]), (T_BYTES, ('bytes', b''), [('SIZE',)]), (('list', T_INT), ('list', []), [('SIZE',)]),
+             (('set', T_INT), ('set', []), [('SIZE',)]), (('map', T_INT, T_INT), ('map', []), [('SIZE',)]),
+             (T_BOOL, ('bool', False), [('IF', ('SEQ', [('PUSH', T_NAT, ('int', 1))]), ('SEQ', [('PUSH', T_NAT, ('int', 0))]))]),
+             (T_STRING, ('str', 'x'), [('SIZE',)]), (T_INT, ('int', 0), [('ABS',)]), (T_NAT, ('int', 0), [('INT',), ('ABS',)]),
+             (('or', T_STRING, T_NAT), ('left', ('str', '')), [('IF_LEFT', ('SEQ', [('SIZE',)]), ('SEQ', []))]),
+             (('option', T_STRING), ('none',), [('IF_NONE', ('SEQ', [('PUSH', T_NAT, ('int', 9))]), ('SEQ', [('SIZE',)]))])]
+    for at, av, to_nat in falsy:
+        ot = ('or', at, T_NAT)
+        add([(ot, ('left', av))], [('IF_LEFT', ('SEQ', to_nat), ('SEQ', []))])
+        out[-1]['must'] = True
+        add([(ot, ('right', ('int', 0)))], [('IF_LEFT', ('SEQ', to_nat), ('SEQ', []))])
+        ot2 = ('or', T_NAT, at)
+        add([(ot2, ('right', av))], [('IF_LEFT', ('SEQ', []), ('SEQ', to_nat))])
+        out[-1]['must'] = True
+        add([(ot2, ('left', ('int', 0)))], [('IF_LEFT', ('SEQ', []), ('SEQ', to_nat))])
+        add([(ot, ('left', av))], [('LOOP_LEFT', ('SEQ', to_nat + [('RIGHT', at)]))])
+        out[-1]['must'] = True
+        add([(('option', at), ('some', av))], [('IF_NONE', ('SEQ', [('PUSH', T_NAT, ('int', 7))]), ('SEQ', to_nat))])
+        add([(('list', at), ('list', [av]))], [('IF_CONS', ('SEQ', [('DIP', 1, ('SEQ', [('DROP', 1)]))] + to_nat), ('SEQ', [('PUSH', T_NAT, ('int', 7))]))])
+        add([(('list', at), ('list', [av, av]))], [('MAP', ('SEQ', to_nat))])
+        add([(('pair', at, T_BOOL), ('pair', av, ('bool', False)))], [('UNPAIR',), ('SWAP',), ('IF', ('SEQ', [('DROP', 1), ('PUSH', T_NAT, ('int', 5))]), ('SEQ', to_nat))])
     # lambdas: LAMBDA / EXEC / APPLY with captured values of every literal shape
     for _ in range(40 if thorough else 14):
         ta = gen_type(rng, 2)
